@@ -487,6 +487,23 @@ func runC03(p *core.Prog, r *core.Report) {
 
 	// ---- R4
 	getters, _ := poolFuncs(p, "logger")
+	// a pooled scratch buffer is filled by append (which grows it): a copy() into it is cut off at whatever capacity the
+	// pool happens to hand back, so what a derived logger renders would depend on what other loggers rendered before
+	{
+		var cp []string
+		for _, fn := range p.PkgFuncs("logger") {
+			sx.Instrs(fn, func(in ssa.Instruction) {
+				c, ok := in.(*ssa.Call)
+				if !ok || !isBuiltin(c, "copy") {
+					return
+				}
+				if sx.Origins(c.Call.Args[0])["call:(*sync.Pool).Get"] {
+					cp = append(cp, "copy() into a pooled buffer in "+fnName(fn)+" at "+p.Pos(in.Pos()))
+				}
+			})
+		}
+		r.Check(len(cp) == 0, "C03-R4", "pooled scratch buffers are filled by append, never by a capacity-bounded copy", "-", "no copy() whose destination is a buffer obtained from a pool", strings.Join(cp, "; ")+": a group path longer than the recycled buffer's capacity is silently truncated in the keys of With attributes")
+	}
 	for _, h := range hs {
 		with, handle := h.Methods["WithAttrs"], h.Methods["Handle"]
 		if with == nil || handle == nil {
